@@ -18,6 +18,10 @@ type VerifC05Perm struct {
 	Codec  int    `json:"codec"`
 	Comp   int    `json:"comp"`
 	RawReq bool   `json:"rawReq"`
+	// only in VerifC05Library: the test case's own name as written in the suite, and whether one of
+	// its request messages defines a raw response
+	Simple  string `json:"simple,omitempty"`
+	RawResp bool   `json:"rawResp,omitempty"`
 }
 
 // VerifC05Perms loads suites and config exactly as Run does and returns all permutations
@@ -41,6 +45,35 @@ func VerifC05Perms(files map[string][]byte, cfgYAML string, mode conformancev1.T
 		out = append(out, VerifC05Perm{
 			Name: tc.Request.TestName, Proto: int(inst.protocol), Ver: int(inst.httpVersion), TLS: inst.useTLS, Certs: inst.useTLSClientCerts,
 			Codec: int(tc.Request.Codec), Comp: int(tc.Request.Compression), RawReq: tc.Request.RawRequest != nil,
+		})
+	}
+	sort.Slice(out, func(i, j int) bool { return out[i].Name < out[j].Name })
+	return out, nil
+}
+
+// VerifC05Library returns the library itself (no gRPC-peer permutations): every permutation under
+// its full name together with the test case's simple name, from which the names of the gRPC-peer
+// permutations are derived.
+func VerifC05Library(files map[string][]byte, cfgYAML string, mode conformancev1.TestSuite_TestMode) ([]VerifC05Perm, error) {
+	suites, err := parseTestSuites(files)
+	if err != nil {
+		return nil, err
+	}
+	cases, err := parseConfig("cfg.yaml", []byte(cfgYAML))
+	if err != nil {
+		return nil, err
+	}
+	lib, err := newTestCaseLibrary(suites, cases, mode)
+	if err != nil {
+		return nil, err
+	}
+	var out []VerifC05Perm
+	for name, tc := range lib.testCases {
+		inst := serverInstanceForCase(tc)
+		out = append(out, VerifC05Perm{
+			Name: name, Proto: int(inst.protocol), Ver: int(inst.httpVersion), TLS: inst.useTLS, Certs: inst.useTLSClientCerts,
+			Codec: int(tc.Request.Codec), Comp: int(tc.Request.Compression), RawReq: tc.Request.RawRequest != nil,
+			Simple: lib.testCaseNames[name], RawResp: hasRawResponse(tc.Request.RequestMessages),
 		})
 	}
 	sort.Slice(out, func(i, j int) bool { return out[i].Name < out[j].Name })
